@@ -50,6 +50,20 @@ CHECKS.update({
          "Round trip, idempotence, node preservation and projection equality are decided on every generated graph/DAG; separation and identifiability consequences on samples. Held = no monitor fired.",
          "trusts O3 (latent_projection, Bayes ball) and O4", "DESIGN §4 C16"),
 })
+CHECKS.update({
+ "C17": ("post-condition on the real identify_district_variables: answer evaluated on K exact random SCMs vs Q[C](v)=P(c|do(v-c)) for all v; assume/guarantee contracts on the internal lemma routines (compute_c_factor, Lemma 1/4, compute_ancestral_set_q_value); failures compared with the Tian-Pearl set recursion (O4)",
+         "Every returned c-factor expression is compared with the model's own Q[C] on all assignments; every internal lemma call whose input denotes Q of its set must return Q of the requested set. Held = equal everywhere evaluated.",
+         "trusts O1/O2; sampled models (n<=5)", "DESIGN §4 C17"),
+ "C18": ("post-condition on the real make_counterfactual_graph (own workload + the calls ID* makes): relabelled event evaluated in the ORIGINAL model on K functional SCMs with shared noise (exact) vs the original event; 'inconsistent' refuted by a positive-probability witness model; structural clauses on the returned graph by reference set algebra; input snapshots",
+         "Probability preservation, the only-if clause of 'inconsistent' and the structural clauses are decided on every call. Held = no monitor fired.",
+         "trusts O1 multi-world evaluation and O3; sampled models", "DESIGN §4 C18"),
+ "C07": ("post-condition on the real id_star: expression read per DESIGN §3 (event values, literal subscripts with Sum-bound override tried both ways, universal reading of unvalued free variables, existential reading of doubly valued names) vs P(event) on K functional SCMs with shared noise (exact); Zero refuted by witness models; exception recorder; finding predicates from wrapped line-6/line-9 helpers",
+         "Each answer is compared with the probability of the queried conjunction in every sampled model. Held = no violation outside the four listed mechanisms (their hit counts and the clean-region count are in the evidence).",
+         "trusts O1/O2 and the reading conventions; the listed findings mask further defects inside their own sub-families", "DESIGN §4 C07"),
+ "C08": ("post-condition on the real idc_star: expression vs P(out and cond)/P(cond) on K functional SCMs (exact) in every model with P(cond)>0; Zero refuted by witness models; congruence-closure oracle (O5) proves a condition impossible in every model, then an answer instead of a rejection is a violation; exception recorder; C04 monitor on the rule-2 queries",
+         "Each answer/zero/rejection is judged against sampled models and the closure oracle. Held = no violation outside the listed mechanisms.",
+         "trusts O1/O2/O5; listed findings (four inherited from ID*, four of IDC*) mask further defects inside their sub-families", "DESIGN §4 C08"),
+})
 PLANNED = {}
 
 def main():
